@@ -212,7 +212,9 @@ def eval_faults(rac):
         "under-pow": ["r['b'] = f.g(r['a']) ** 2", "r['c'] = r['b'] + 1"],
     }
     excs = ["Boom", "ZeroDivisionError", "ValueError", "KeyError", "OverflowError", "TypeError", "AttributeError",
-            "IndexError", "RuntimeError", "FloatingPointError"]
+            "IndexError", "RuntimeError", "FloatingPointError",
+            # exceptions with a meaning of their own for iteration protocols / generators: still just failures of the task here
+            "StopIteration", "StopAsyncIteration", "LookupError", "ArithmeticError", "AssertionError", "NotImplementedError"]
     for name, defs in shapes.items():
       for excname in excs:
         env["Boom"] = env["Boom"] if excname == "Boom" else env["Boom"]
@@ -295,7 +297,7 @@ def main():
         for trig in (("val", A_, 5.0), ("val", A_, 7), ("val", A_, True), ("expr", A_, "same", (("l", 0),))):
             run_case(rac, list(hist), trig)
     rac.section("eval-faults", "a user function raising while a task's expression is evaluated, chain / first / diamond / "
-                "consumer-first shapes, value and expression triggers", "8 shapes x 10 exception classes x 2 triggers")
+                "consumer-first shapes, value and expression triggers", "8 shapes x 16 exception classes x 2 triggers")
     eval_faults(rac)
     rac.section("random", "random histories of length 5..12 then a trigger, every fault position", "30 quick / 400 thorough",
                 exhaustive=False)
